@@ -1436,3 +1436,59 @@ Proof.
   - intros (tr & H). exact (match_text_shaped t tr H).
   - apply match_complete.
 Qed.
+
+(* ---------------------------------------------------------------- general comments  /* ... */ *)
+
+(* TrimSpace only removes from the end what it removes: the result is a prefix of the text *)
+Lemma skipn_add : forall (b a : nat) (l : str), skipn a (skipn b l) = skipn (a + b) l.
+Proof.
+  induction b as [|b IH]; intros a l.
+  - rewrite Nat.add_0_r. reflexivity.
+  - rewrite Nat.add_succ_r. destruct l as [|x l].
+    + cbn [skipn]. destruct a; reflexivity.
+    + cbn [skipn]. apply IH.
+Qed.
+
+Lemma rtrim_rev_skipn : forall fuel r, exists k, rtrim_rev fuel r = skipn k r.
+Proof.
+  induction fuel as [|f IH]; intros r.
+  - exists 0. reflexivity.
+  - cbn [rtrim_rev]. destruct (last_ws_len r) as [|k'] eqn:E.
+    + exists 0. reflexivity.
+    + destruct (IH (skipn (S k') r)) as (k2 & Hk2). exists (k2 + S k'). rewrite Hk2.
+      apply skipn_add.
+Qed.
+
+Lemma rtrim_firstn : forall t, exists m, rtrim t = firstn m t.
+Proof.
+  intros t. unfold rtrim. destruct (rtrim_rev_skipn (List.length t) (rev t)) as (k & Hk).
+  exists (List.length t - k). rewrite Hk, skipn_rev, rev_involutive. reflexivity.
+Qed.
+
+(* a comment that starts with the marker of a general comment is, whatever it contains (line feeds,
+   lines that look like annotations), ONE free-text entry and never an attribute: its text is kept
+   with the markers, outer blanks removed *)
+Lemma general_comment_free : forall P json5 is_null body,
+  parse_line (s "/*" ++ body) = None /\
+  classify P json5 is_null (s "/*" ++ body) = LFree (trim_blanks (s "/*" ++ body)).
+Proof.
+  intros P json5 is_null body.
+  assert (Hp : parse_line (s "/*" ++ body) = None).
+  { unfold parse_line, trim_space.
+    assert (Hl : ltrim (s "/*" ++ body) = s "/*" ++ body) by (destruct body; reflexivity).
+    rewrite Hl. destruct (rtrim_firstn (s "/*" ++ body)) as (m & Hm). rewrite Hm.
+    destruct m as [|[|m]]; reflexivity. }
+  split; [exact Hp|]. unfold classify. rewrite Hp. reflexivity.
+Qed.
+
+(* a doc comment as go/ast hands it over: a general comment spanning four source lines with
+   annotation-shaped lines inside, then more free text, then an annotation *)
+Definition demo_general : str :=
+  s "/*" ++ [c_lf] ++ s "// @Description not this" ++ [c_lf] ++ s "// @Method(POST)" ++ [c_lf] ++ s "*/".
+
+Lemma demo_general_holder :
+  exists h, holder str toy_json5 toy_null [demo_general; s "// Archived widgets are left out."; s "// @Method(GET)"] = Some h /\
+    map (fun a => (a_name a, a_value a)) (h_attrs h) = [ (s "Method", s "GET") ] /\
+    h_frees h = [ (0, demo_general); (1, s "Archived widgets are left out.") ] /\
+    description str h = demo_general ++ [c_lf] ++ s "Archived widgets are left out.".
+Proof. eexists. split; [vm_compute; reflexivity|]. repeat split; vm_compute; reflexivity. Qed.
